@@ -33,10 +33,11 @@ def run(ctx):
     xtags = N.extra_tags(rnd, ctx.pick(1500, 30000))
     fd = ctx.subdir("naming_inputs")
     nfile = ctx.pick(1, 8)
-    parts = [("plain", "plain", None), ("tags", "tags", None)]
+    parts = [("plain", "plain", None)]
     if ctx.quick:
-        parts.append(("rle", "rle", None))
+        parts += [("tags", "tags", None), ("rle", "rle", None)]
     else:
+        parts += [("tagsA", "tags:app", None), ("tagsH", "tags:hook", None)]
         parts += [("rle%d" % i, "rle:" + ch, None) for i, ch in enumerate(sorted(consts["RleAlpha"]))]
     chunks = []
     for i in range(nfile):
